@@ -39,6 +39,7 @@ def asan_runtime():
 
 _scratch = None
 import threading as _threading
+import uuid as _uuid
 _scratch_lock = _threading.Lock()
 
 
@@ -376,7 +377,7 @@ def tlc(module, cfg=None, workers=None, env=None, timeout=1800, simulate=None, d
     are collected in .printed."""
     specdir = specdir or SPEC
     r = TLCResult()
-    meta = subdir("tlc") + "/m%d_%d" % (int(time.time() * 1000) % 100000000, len(os.listdir(subdir("tlc"))))
+    meta = subdir("tlc") + "/m_" + _uuid.uuid4().hex     # unique also for concurrent calls from threads
     cmd = ["java", "-XX:+UseParallelGC"]
     if heap:
         cmd.append("-Xmx" + heap)
@@ -453,7 +454,7 @@ def tlc_simulate(module, cfg, seconds=20, depth=40, workers=4, env=None, seed=No
     records the spec prints ("@@"+json lines).  TLC is killed when the budget
     or max_records is reached (simulation never terminates by itself)."""
     specdir = specdir or SPEC
-    meta = subdir("tlc") + "/s%d_%d" % (int(time.time() * 1000) % 100000000, len(os.listdir(subdir("tlc"))))
+    meta = subdir("tlc") + "/s_" + _uuid.uuid4().hex
     cmd = ["java", "-XX:+UseParallelGC", "-cp",
            "/opt/veriftools/tla/tla2tools.jar:/opt/veriftools/tla/CommunityModules-deps.jar",
            "tlc2.TLC", "-workers", str(workers), "-metadir", meta, "-noGenerateSpecTE",
